@@ -1,9 +1,11 @@
 import NasdaqModel.Lemmas.AppSessionLemmasF
 /-
-C04, application sessions — the known finding C04-late-cancel-loses-message on the *second* queue (same class,
-`DispatchableMessageQueue`): a `receive_message()` that is cancelled after its helper task already took the value off the
-application queue, but before the caller resumed, reports the cancellation — and the value is lost.
-Replayed on the implementation by harness/app_sessions.py (`app.witness C04App-late-cancel`).
+C04, application sessions — regression witness for the repaired finding C04-late-cancel-loses-message on the *second* queue
+(same class, `DispatchableMessageQueue`): before the repair a `receive_message()` that was cancelled after its helper task had
+already taken the value off the application queue, but before the caller resumed, reported the cancellation — and the value was
+lost.  `stepOld` is the previous transition (identical to `step` except that the cancelled receive drops the held value); on the
+recorded history it loses value 5 and leaves the next receive waiting, while the model (the repaired code) hands 5 to the next
+receive.  Replayed on the implementation by harness/app_sessions.py (`app.witness C04App-late-cancel`).
 -/
 namespace NasdaqModel.Witness.C04App
 open NasdaqModel App
@@ -13,26 +15,66 @@ def cfg : ACfg :=
     hasMsgCb := false, msgBeh := fun _ => .ret, hasCb := false, cbBeh := .ret, closedFirst := true }
 
 /-- login; `receive_message()` blocks; message 5 arrives and is put on the application queue; the helper takes it; the caller is
-    cancelled before it resumes; a second receive finds nothing -/
+    cancelled before it resumes; a second receive -/
 def history : List Ev :=
   [.inner .connect, .inner (.callLogin 1), .inner (.run .V), .inner (.data [.msg 0]), .inner (.run .R), .inner (.run .V),
    .inner (.run (.U 1)), .inner (.run .D), .appRecv 2, .run .V2, .inner (.data [.msg 5]), .inner (.run .R), .inner (.run .D),
    .inner (.run .D), .run .V2, .appCancel 2, .run (.W 2), .appRecv 3, .run .V2]
 
+/-- the transition relation before the repair: as `step`, except that a cancellation delivered inside `receive_message()` drops
+    the value held for it (marked `(v, false)` in `gone2`) -/
+def stepOld (a : ACfg) (s : St) : Ev → St
+  | .run t =>
+      if s.astatus t = .cancelled then
+        match s.aprog t with
+        | .recvWait u =>
+            let s := { s with imm2 := false }
+            let s := { s with vres2 := none, rcv2Busy := false, gone2 := s.gone2 ++ s.vres2.toList.map (fun v => (v, false)) }
+            if s.q2Closed then (s.emit2 (.ret u .eoq)).finish2 t else (s.emit2 (.ret u .cancelled)).finish2 t
+        | _ => step a s (.run t)
+      else step a s (.run t)
+  | e => step a s e
+
+def runOld (a : ACfg) (s : St) (evs : List Ev) : St := evs.foldl (stepOld a) s
+
 set_option maxRecDepth 100000 in
-theorem C04App_witness_late_cancel_loses_message :
-    (runEvs cfg {} history).trace2 = [.ret 2 .cancelled] ∧
-    (runEvs cfg {} history).lost2 = [5] ∧
-    (Sess.msgsOf (runEvs cfg {} history).inner.wire).filterMap (valOf cfg) = [5] ∧
+/-- **before the repair**: value 5 was fully received, decoded and never delivered, and the next receive is left waiting -/
+theorem C04App_witness_old_semantics_loses_message :
+    (runOld cfg {} history).trace2 = [.ret 2 .cancelled] ∧
+    (runOld cfg {} history).lost2 = [5] ∧
+    (Sess.msgsOf (runOld cfg {} history).inner.wire).filterMap (valOf cfg) = [5] ∧
+    (runOld cfg {} history).q2 = [] ∧ (runOld cfg {} history).vres2 = none ∧
+    (runOld cfg {} history).astatus (.W 3) = .waitV ∧
+    (runOld cfg {} history).inner.closed = false ∧
+    appDelivered (runOld cfg {} history).trace2 ++ (runOld cfg {} history).q2
+      ≠ (Sess.msgsOf (runOld cfg {} history).inner.wire).filterMap (valOf cfg) := by decide
+
+set_option maxRecDepth 100000 in
+/-- **the model (the repaired code)**: the cancelled receive consumed nothing; the next `receive_message()` returns 5 at once -/
+theorem C04App_witness_model_delivers_message :
+    (runEvs cfg {} history).trace2 = [.ret 2 .cancelled, .ret 3 (.msg 5)] ∧
+    (runEvs cfg {} history).lost2 = [] ∧
+    appDelivered (runEvs cfg {} history).trace2 = (Sess.msgsOf (runEvs cfg {} history).inner.wire).filterMap (valOf cfg) ∧
     (runEvs cfg {} history).q2 = [] ∧ (runEvs cfg {} history).vres2 = none ∧
-    (runEvs cfg {} history).astatus (.W 3) = .waitV ∧
+    (runEvs cfg {} history).astatus (.W 3) = .done ∧
     (runEvs cfg {} history).inner.closed = false := by decide
 
 set_option maxRecDepth 100000 in
-/-- hence the unconditional prefix statement is false of the application session as well: value 5 was fully received,
-    decoded and never delivered, and the next receive is left waiting -/
-theorem C04App_witness_not_all_delivered :
-    appDelivered (runEvs cfg {} history).trace2 ++ (runEvs cfg {} history).q2
-      ≠ (Sess.msgsOf (runEvs cfg {} history).inner.wire).filterMap (valOf cfg) := by decide
+/-- between the cancellation and the next receive the value is back at the head of the application queue (the stash) -/
+theorem C04App_witness_value_back_in_front :
+    (runEvs cfg {} (history.take 17)).q2 = [5] ∧ (runEvs cfg {} (history.take 17)).vres2 = none ∧
+    (runEvs cfg {} (history.take 17)).rcv2Busy = false := by decide
+
+/-- the two transition relations differ *only* in the late-cancel window: with no value held they are the same function -/
+theorem C04App_old_eq_step_unless_held (a : ACfg) (s : St) (ev : Ev) (hv : s.vres2 = none) :
+    stepOld a s ev = step a s ev := by
+  cases ev with
+  | run t =>
+    simp only [stepOld, step]
+    by_cases hc : s.astatus t = .cancelled
+    · simp only [hc, if_true, runnable2, stepRun2]
+      cases hp : s.aprog t <;> simp [hv, runnable2]
+    · simp [hc]
+  | _ => rfl
 
 end NasdaqModel.Witness.C04App
